@@ -561,6 +561,9 @@ def _sx_call(o, name, *a, **k):
                 if _keyeq(key, kk):
                     return o[kk]
             # falls through to native (realises the key)
+    if name in ('encode', 'decode') and isinstance(o, (str, bytes)) and (any(_sym(x) for x in a) or any(_sym(x) for x in k.values())):
+        from . import pycodecs
+        return (pycodecs.encode if name == 'encode' else pycodecs.decode)(o, *a, **k)
     return getattr(o, name)(*a, **k)
 
 
